@@ -17,7 +17,7 @@ if [ -n "$demo" ]; then
     compattest) pd=internal/compattest ;;
     *) pd=. ;;
   esac
-  name=$(grep -o '^func Test[A-Za-z0-9_]*' $demo | head -1 | sed 's/func //')
+  name="($(grep -o '^func Test[A-Za-z0-9_]*' $demo | sed 's/func //' | paste -sd'|'))"
   cp $demo $W/$pd/zz_seed_demo_test.go
   if (cd $W && go test -vet=off -count=1 -run "^$name\$" ./$pd >/dev/shm/seed-clean.$$.log 2>&1); then res_clean=pass; else res_clean=FAIL; fi
 fi
